@@ -512,8 +512,7 @@ def check_position(E, M, pos, codec, v):
     got = getattr(m2, pos)
     if not same_number(got, want):
         return f"number {v} in position {pos!r} came back as {got!r} through {codec}"
-    if codec == "binary" or pos != "m":
-        # (dict/JSON leave map values unconverted: plain ints after from_json — number kept; covered by C04/C05)
+    if True:
         for g in members_of_value(got):
             if type(g) is not E:
                 return f"position {pos!r} through {codec}: value is {type(g).__name__}, not an instance of the enum"
@@ -539,9 +538,9 @@ def position_class(codec, v, E):
 
 
 WHAT = {
-    "binary-negative-number": "a negative enum number does not survive bytes()/parse() (DESIGN F3; fixes/c20-f3-enum-int32-decode.patch)",
+    "binary-negative-number": "a negative enum number does not survive bytes()/parse() (DESIGN F3, repaired by /repo bdf150b = fixes/c20-f3-enum-int32-decode.patch)",
     "json-number-without-name": "an enum number without a name does not survive to_dict/to_json -> from_dict/from_json "
-                                "(DESIGN F8; fixes/c20-f8-unnamed-enum-json.patch)",
+                                "(DESIGN F8, repaired by /repo f0e3c24 = fixes/c20-f8-unnamed-enum-json.patch)",
     "other": "an enum field value does not survive a codec round trip",
 }
 
@@ -809,7 +808,19 @@ def run(ctx):
                 {"kind": "to_json_el", "body": body, "v": v})
             add(f"cres (cmem_id {cls_expr}) (from_json_el {cls_expr} (JNum {coq_z(v)}))",
                 guarded(lambda: S().from_dict({"s": v}).s, lambda m: c_member_id(E, m)), {"kind": "from_json_el", "body": body, "j": v})
+        Mm = msgs[cname]["M"]
+        for v in numbers[::3]:
+            add(f"cjv (to_json_el {cls_expr} {coq_z(v)})",
+                guarded(lambda: Mm(m={"k": E.try_value(v)}).to_dict()["m"]["k"],
+                        lambda j: cb(j.encode("utf-8")) if isinstance(j, str) else (cz(j) if type(j) is int else cb(repr(j).encode()))),
+                {"kind": "to_json_el(map value)", "body": body, "v": v})
+            add(f"cres (cmem_id {cls_expr}) (from_json_el {cls_expr} (JNum {coq_z(v)}))",
+                guarded(lambda: Mm().from_dict({"m": {"k": v}}).m["k"], lambda m: c_member_id(E, m)),
+                {"kind": "from_json_el(map value)", "body": body, "j": v})
         for n in names:
+            add(f"cres (cmem_id {cls_expr}) (from_json_el {cls_expr} (JName {q_name(n)}))",
+                guarded(lambda: Mm().from_dict({"m": {"k": n}}).m["k"], lambda m: c_member_id(E, m)),
+                {"kind": "from_json_el(map value)", "body": body, "j": n})
             add(f"cres (cmem_id {cls_expr}) (from_json_el {cls_expr} (JName {q_name(n)}))",
                 guarded(lambda: S().from_dict({"s": n}).s, lambda m: c_member_id(E, m)), {"kind": "from_json_el", "body": body, "j": n})
         for _ in range(4):
@@ -839,10 +850,6 @@ def run(ctx):
         for v in numbers:
             for pos in POSITIONS:
                 for codec in CODECS:
-                    if codec == "dict_defaults" and pos == "o":
-                        # to_dict(include_default_values=True) also emits the unset oneof sibling and from_dict then
-                        # selects it: a oneof/to_dict matter (C04/C07), independent of the field being an enum
-                        continue
                     inp = {"kind": "position", "body": body, "pos": pos, "codec": codec, "v": v}
                     try:
                         why = check_position(E, M, pos, codec, v)
@@ -867,11 +874,14 @@ def run(ctx):
 
     # ------------------------------------------------------------------ T2 evaluation inside Coq
     ctx.cov["evaluations"] += len(pairs)
-    bad = lib.coq_compare(ctx, "c20", IMPORTS, pairs, chunk=60)
+    bad = lib.coq_compare(ctx, "c20", IMPORTS, pairs, chunk=min(400, max(60, -(-len(pairs) // lib.JOBS))))
     ctx.cov["disagreements_checked"] += len(pairs)
+    oracle_found_input = any(f["kind"] == "oracle" for f in ctx.failures)
     for i in bad[:10]:
         model_val = lib.coq_eval(ctx, IMPORTS, pairs[i][0])
-        ctx.fail("corr", f"model and implementation disagree on {descr[i]['kind']}", input=descr[i],
+        # without an oracle failure the case below is where model and code part ways, not an input on which the
+        # property itself was seen to fail
+        ctx.fail("corr", f"model and implementation disagree on {descr[i]['kind']}", input=descr[i], no_input=not oracle_found_input,
                  expected_model=model_val, observed_impl=pairs[i][1],
                  theorem_or_correspondence="T2 correspondence Model/Enum.v <-> betterproto.enum / enum paths of betterproto.Message")
     for i in (0, len(systematic_bodies()) + 3, len(pairs) // 2, len(pairs) - 1):
